@@ -43,6 +43,7 @@ def dispatch (op : String) : Option (List String → List String → Option (Str
   | "raterun.switch" => some raterunOp
   | "raterun.count" => some raterunOp
   | "plan" => some plan
+  | "gaussvol" => some gaussvol
   | "calc.constant" => some (calcOp "constant")
   | "calc.ramp" => some (calcOp "ramp")
   | "calc.staged" => some (calcOp "staged")
